@@ -15,7 +15,15 @@ def group_dir(group):
     return os.path.join(VERIF, "kani", group)
 
 
+REPO_GROUPS = {
+    # in-crate harnesses (private items): cargo kani runs on /repo itself, build output under /verif/.build
+    "repo_zonetree": ["unstable-zonetree"],
+}
+
+
 def prepare(group):
+    if group in REPO_GROUPS:
+        return REPO
     d = group_dir(group)
     # Cargo.lock of /repo pins every dependency version (offline resolution)
     shutil.copyfile(os.path.join(REPO, "Cargo.lock"), os.path.join(d, "Cargo.lock"))
@@ -41,6 +49,8 @@ def run_group(group, harnesses, jobs=4, timeout=3600, extra=None, playback=False
     env["CARGO_NET_OFFLINE"] = "true"
     env["CARGO_TARGET_DIR"] = os.path.join(BUILD, "kani-" + group)
     cmd = ["cargo", "kani", "-Z", "function-contracts", "-Z", "stubbing", "--output-format=terse", "-j", str(jobs)]
+    if group in REPO_GROUPS:
+        cmd += ["--features", ",".join(REPO_GROUPS[group])]
     if playback:
         cmd += ["-Z", "concrete-playback", "--concrete-playback=print"]
     for h in harnesses:
@@ -157,6 +167,8 @@ def extract_playback_tests(raw):
 
 def native_playback(group, tests, timeout=1800):
     """Re-execute Kani's concrete values natively against the real crate (cargo kani playback)."""
+    if group in REPO_GROUPS:
+        return {"ran": False, "failed_natively": False, "panics": [], "note": "in-crate harness: native playback not wired"}
     d = prepare(group)
     lib = open(os.path.join(d, "src", "lib.rs")).read()
     mods = [m for m in re.findall(r"^\s*(?:pub )?mod (\w+);", lib, re.M) if m != "playback_gen"]
